@@ -555,18 +555,56 @@ def _(c):
     M_applies(c, o, c.self, c.new)
 
 
+def wl_snapshot_result(o, S, X, name="snapshot"):
+    """a new immutable mapping (MappingProxyType at both levels) with the content of X: it consists of no mutable dict object"""
+    r = o.fresh("<container>", name)
+    o.set("wl_val", r, S.read("wl_val", X))
+    o.set_where("wl_part", lambda ad: (ad[0] == r, BoolVal(False)))
+    return r
+
+
+@contract("UniverseLaws.edge_whitelist", "self:UniverseLaws", pure_getter=True, props=("C12", "C19", "C13"))
+def _(c):
+    """None, or an immutable snapshot (read-only proxies at both levels) of the stored whitelist: same content, no mutable part -
+    nothing a caller does with it can reach the rules.  AttributeError / ValueError when the stored value is not a mapping of mappings"""
+    S, X = c.S, c.S.read("_edge_whitelist", c.self)
+    ok = T.wl_ok(S.read("wl_val", X))
+    c.normal(when=X == NONE, result=NONE_V, label="no-whitelist")
+    c.raises(("AttributeError", "ValueError"), when=And(X != NONE, Not(ok)), label="malformed")
+    o = c.normal(when=And(X != NONE, ok), label="snapshot")
+    r = wl_snapshot_result(o, S, X)
+    o.result(VRef(r, None, "opaque"))
+
+
 @contract("UniverseLaws.__init__",
           "self:UniverseLaws, edge_whitelist:any=None, mixed_links:any=False, cycles:any=True, multipath:any=True, multiverse:any=False, applies_to:Universe?=None",
-          props=("C19", "C12"), trusted=True, no_body=True)
+          props=("C19", "C12"))
 def _(c):
-    # TRUSTED (body not within the symbolic subset: dict comprehension over MappingProxyType); bounded stand-in only.
-    o = c.normal()
-    base_init_effects(c, o, c.self, z3.IntVal(0), NONE, T.EMPTY())
-    for f_, a_ in (("_mixed_links", c.mixed_links), ("_cycles", c.cycles), ("_multipath", c.multipath),
-                   ("_multiverse", c.multiverse), ("_applies_to", c.applies_to)):
-        o.set(f_, c.self, a_)
-    wl = T.fresh("whitelist_copy", Ref)
-    o.set("_edge_whitelist", c.self, wl)
+    """the rule fields hold the constructor arguments; the whitelist is stored as a DEEP COPY: a new mapping with the content the
+    argument had at construction, consisting only of dict objects that did not exist before (so no later change to the caller's
+    dictionary, outer or inner, can reach the rules); ValueError (nothing observable changed) when the argument is malformed"""
+    S, W = c.S, c.edge_whitelist
+    ok = T.wl_ok(S.read("wl_val", W))
+    c.raises("ValueError", when=And(W != NONE, Not(ok)), label="malformed-whitelist")
+
+    def common(o):
+        base_init_effects(c, o, c.self, z3.IntVal(0), NONE, T.EMPTY())
+        for f_, a_ in (("_mixed_links", c.mixed_links), ("_cycles", c.cycles), ("_multipath", c.multipath),
+                       ("_multiverse", c.multiverse), ("_applies_to", c.applies_to)):
+            o.set(f_, c.self, a_)
+    o = c.normal(when=W == NONE, label="no-whitelist")
+    common(o)
+    o.set("_edge_whitelist", c.self, NONE)
+    o = c.normal(when=And(W != NONE, ok), label="whitelist-copied")
+    common(o)
+    tmp = wl_snapshot_result(o, S, W, "checked")          # the validated snapshot the constructor reads the content from (garbage)
+    E = o.fresh("<container>", "whitelist_copy")
+    o.set("_edge_whitelist", c.self, E)
+    o.set("wl_val", E, S.read("wl_val", W))
+    o.loose("wl_part", lambda new, old, *_: [
+        Schema("deep-copy-shares-no-dict-with-the-argument", (Ref, Ref), lambda ob, x: If(
+            ob == E, Implies(new(ob, x), And(Not(old(W, x)), x != W)),
+            If(ob == tmp, Not(new(ob, x)), new(ob, x) == old(ob, x))), trigger=("wl_part",))])
 
 
 @contract("Universe.__init__",
